@@ -166,6 +166,9 @@ pub struct M<'t> {
     pub aborted: bool,
     /// observer for `Tagged` nodes; when set, committing constructs are explored exhaustively
     pub obs: Option<Obs>,
+    /// bug-compatible mode for finding F1: an optional iteration of an unbounded repeat that
+    /// consumed nothing FAILS (the crate's RepeatEpsilon guard) instead of ending the loop
+    pub f1_compat: bool,
 }
 
 type K<'a, 't> = &'a mut dyn FnMut(&mut M<'t>, usize, &mut St) -> bool;
@@ -576,8 +579,13 @@ impl<'t> M<'t> {
                 if more {
                     if self.m(c, pos, st, &mut |s, p, st| {
                         if unbounded && p == pos {
-                            // rule 7 (Perl): an iteration that consumed nothing ends the loop
-                            k(s, p, st)
+                            // rule 7 (Perl): an iteration that consumed nothing ends the loop;
+                            // the crate (finding F1) makes that iteration fail instead
+                            if s.f1_compat {
+                                false
+                            } else {
+                                k(s, p, st)
+                            }
                         } else {
                             s.rep(c, lo, hi, mode, count + 1, p, st, k)
                         }
@@ -624,9 +632,14 @@ pub enum Out {
 
 pub const BUDGET: u64 = 200_000;
 
+std::thread_local! {
+    /// per-thread switch for the bug-compatible F1 mode of `search` / `iterate`
+    pub static F1_COMPAT: std::cell::Cell<bool> = const { std::cell::Cell::new(false) };
+}
+
 /// Leftmost search from `from`; returns the capture vector with group 0 = overall span.
 pub fn search(r: &R, ngroups: usize, text: &str, from: usize, skipped: bool, budget: u64) -> (Out, u64) {
-    let mut m = M { text, from, skipped, steps: 0, budget, aborted: false, obs: None };
+    let mut m = M { text, from, skipped, steps: 0, budget, aborted: false, obs: None, f1_compat: F1_COMPAT.with(|c| c.get()) };
     let mut s = from;
     loop {
         let mut st = St { caps: vec![None; ngroups + 1], keep: None };
@@ -653,7 +666,7 @@ pub fn search(r: &R, ngroups: usize, text: &str, from: usize, skipped: bool, bud
 
 /// Explore every path from every start position, recording per-tag observed lengths.
 pub fn observe(r: &R, ngroups: usize, text: &str, budget: u64, obs: &mut Obs) -> bool {
-    let mut m = M { text, from: 0, skipped: false, steps: 0, budget, aborted: false, obs: Some(std::mem::take(obs)) };
+    let mut m = M { text, from: 0, skipped: false, steps: 0, budget, aborted: false, obs: Some(std::mem::take(obs)), f1_compat: false };
     let mut s = 0;
     loop {
         let mut st = St { caps: vec![None; ngroups + 1], keep: None };
